@@ -39,6 +39,8 @@ SAT_SUB = re.compile(r"::saturating_sub$")
 CHECKED = re.compile(r"::checked_(add|sub|mul)$")
 NON_RESIZING = re.compile(r"\bIndexMut<.*>>?::index_mut$|\bIndex<.*>>?::index$|::(fill|copy_from_slice|clone_from_slice|swap|reverse|sort\w*|get_mut|first_mut|last_mut|chunks_mut|split_at_mut)$|\bDerefMut>?::deref_mut$|::as_mut_slice$|\bAsMut<.*>>?::as_mut$|\bBorrowMut<.*>>?::borrow_mut$|\bIterator>?::next$|::iter_mut$|::as_mut_ptr$")
 FROM_ELEM = re.compile(r"\bvec::from_elem$")
+PAYLOAD_KEEP = re.compile(r"\bOption::<T>::(ok_or|ok_or_else|copied|cloned|filter|or|or_else|take)$|\bResult::<T, E>::(map_err|ok|or|or_else|inspect_err)$")
+GET_CALL = re.compile(r"core::slice::<impl \[T\]>::(get|get_mut)$|\bVec::<T, A>::get$")
 FIND_CALL = re.compile(r"core::str::<impl str>::(find|rfind)$|memchr::memchr$")
 INPUT_CALL = re.compile(r"::from_(be|le|ne)_bytes$|\bReadBytesExt>?::read_\w+$|BinReaderExt>?::read_\w+$|\bBinRead>?::read\w*$|::read_(u|i)\d+\w*$|::get_(u|i)\d+\w*$")
 
@@ -116,7 +118,7 @@ def fmt_atom(a):
 
 
 class State:
-    __slots__ = ("env", "facts", "cmp", "pts", "ver", "lendef", "rng", "post", "disc")
+    __slots__ = ("env", "facts", "cmp", "pts", "ver", "lendef", "rng", "post", "disc", "clos")
 
     def __init__(self):
         self.env = {}
@@ -128,6 +130,7 @@ class State:
         self.rng = {}
         self.post = {}
         self.disc = {}
+        self.clos = {}
 
     def copy(self):
         s = State()
@@ -140,11 +143,12 @@ class State:
         s.rng = dict(self.rng)
         s.post = dict(self.post)
         s.disc = dict(self.disc)
+        s.clos = dict(self.clos)
         return s
 
     def same(self, o):
         return (self.env == o.env and self.facts == o.facts and self.cmp == o.cmp and self.pts == o.pts and self.ver == o.ver
-                and self.lendef == o.lendef and self.rng == o.rng and self.post == o.post and self.disc == o.disc)
+                and self.lendef == o.lendef and self.rng == o.rng and self.post == o.post and self.disc == o.disc and self.clos == o.clos)
 
 
 def join(states, bb, phi_src=None, prover=None):
@@ -183,7 +187,7 @@ def join(states, bb, phi_src=None, prover=None):
             if len(f.t) <= 3 and all((f in s.facts) or prover(s, f) for s in states):
                 facts.add(f)
     out.facts = frozenset(facts)
-    for name in ("cmp", "pts", "ver", "rng", "post", "disc"):
+    for name in ("cmp", "pts", "ver", "rng", "post", "disc", "clos"):
         d0 = getattr(first, name)
         d = {}
         for k, v in d0.items():
@@ -249,6 +253,7 @@ class Analysis:
         self.assume = list(assume)
         self.requires = requires or {}
         self._ovf = {}
+        self.byte_refs = set()
         self.atom_src = {}   # atom -> (kind, detail)
         self.atom_ty = {}
         self.phi_src = {}    # phi atom -> set of Lin it merges
@@ -374,6 +379,7 @@ class Analysis:
         st.rng.pop(l, None)
         st.post.pop(l, None)
         st.disc.pop(l, None)
+        st.clos.pop(l, None)
         st.ver[l] = (st.ver.get(l, 0) + 1) if isinstance(st.ver.get(l, 0), int) else ("k", st.ver.get(l))
 
     # ---- transfer ------------------------------------------------------------------------------------------------
@@ -397,18 +403,28 @@ class Analysis:
         cmpv = None
         ptsv = None
         rngv = None
+        closv = None
         fields = {}
         if k == "Use":
             o = r["o"][0]
             val = self.operand(st, o, bb, idx)
             if o["k"] in ("cp", "mv") and len(o["p"]) == 1:
                 src = o["p"][0]
+                if src in self.byte_refs:
+                    self.byte_refs.add(d)
                 cmpv = st.cmp.get(src)
                 ptsv = st.pts.get(src)
                 rngv = st.rng.get(src)
                 for kk, vv in st.env.items():
                     if isinstance(kk, tuple) and kk[0] == src:
                         fields[kk[1]] = vv
+            if val is None and o["k"] in ("cp", "mv") and INT.match(self.ty(d)) and len(o["p"]) >= 2 and o["p"][0] == 1 and self.b.root:
+                ups = [e for e in o["p"][1:] if isinstance(e, dict) and str(e.get("n", "")).startswith("upvar:")]
+                if ups and all(e == "*" or e in ups for e in o["p"][1:]):
+                    ua = ("up", ups[0]["f"])
+                    self.atom_src.setdefault(ua, ("other", ups[0]["n"]))
+                    self.atom_ty.setdefault(ua, self.ty(d))
+                    val = Lin.atom(ua)
             if val is None and o["k"] in ("cp", "mv") and INT.match(self.ty(d)) and len(o["p"]) >= 2:
                 fa = self.field_atom(st, o["p"])
                 if fa is not None:
@@ -417,6 +433,8 @@ class Analysis:
                 # a load: from a byte slice -> input; else opaque
                 base_ty = self.ty(o["p"][0])
                 kind = "other"
+                if len(o["p"]) == 2 and o["p"][1] == "*" and o["p"][0] in self.byte_refs:
+                    kind = "input"
                 if any(isinstance(e, dict) and "i" in e for e in o["p"][1:]) or any(isinstance(e, dict) and ("ci" in e or "sub" in e) for e in o["p"][1:]):
                     if re.search(r"\[u8", base_ty):
                         kind = "input"
@@ -519,6 +537,8 @@ class Analysis:
                 # reborrow: same value
                 val = st.env.get(rp[0])
                 ptsv = st.pts.get(rp[0])
+            elif any(isinstance(e, dict) and ("i" in e or "ci" in e) for e in rp[1:]) and re.search(r"\[u8", self.ty(rp[0])):
+                self.byte_refs.add(d)      # a reference to one byte of a byte slice (slice patterns: `[tag, len, rest @ ..]`)
             elif not r.get("mut") and self.field_atom(st, rp) is not None:
                 # &self.field / &(*p).field: the container stored in that field of that (unchanged) object
                 val = Lin.atom(self.field_atom(st, rp))
@@ -538,6 +558,17 @@ class Analysis:
                     rngv = ("RangeTo", None, ops[0])
                 else:
                     rngv = (kind, None, None)
+            elif r.get("ak") == "closure":
+                caps = []
+                for o in r["o"]:
+                    v = None
+                    if o["k"] in ("cp", "mv") and len(o["p"]) == 1:
+                        l0 = o["p"][0]
+                        v = st.env.get(st.pts[l0]) if l0 in st.pts else st.env.get(l0)
+                    elif o["k"] == "c":
+                        v = self.operand(st, o, bb, idx)
+                    caps.append(v)
+                closv = (r.get("body"), tuple(caps))
             elif r.get("ak") == "tuple":
                 for i, o in enumerate(r["o"]):
                     v = self.operand(st, o, bb, idx)
@@ -574,6 +605,10 @@ class Analysis:
             st.pts[d] = ptsv
         if rngv is not None:
             st.rng[d] = rngv
+        if closv is not None:
+            st.clos[d] = closv
+        elif k == "Use" and r["o"][0]["k"] in ("cp", "mv") and len(r["o"][0]["p"]) == 1 and r["o"][0]["p"][0] in st.clos:
+            st.clos[d] = st.clos[r["o"][0]["p"][0]]
 
     def derive(self, lin, srcs):
         a = lin.single()
@@ -827,13 +862,15 @@ class Analysis:
             # position APIs: Some(p) with p + len(pattern) <= len(haystack) (p < len for element searches)
             ln = self.len_of(st, self.value_atom(st, args[0]))
             if ln is not None:
-                payload = self.fresh("pos", bb, "t", "derived", name, "usize")
+                payload = self.fresh("pos", bb, "t", "position", name, "usize")
                 pl = None
                 a1 = args[1]
                 if a1["k"] == "c" and isinstance(a1.get("s"), str) and a1.get("ty", "").startswith("&str") or (a1["k"] == "c" and "str" in a1.get("ty", "")):
                     lit = a1.get("s", "")
                     if lit.startswith('"') and lit.endswith('"') and "\\" not in lit:
                         pl = Lin(len(lit) - 2)
+                if pl is None and ((a1["k"] == "c" and a1.get("ty") == "char") or (len(at) > 1 and at[1] == "char")):
+                    pl = Lin(1)      # a matched char occupies at least one byte
                 if pl is None and a1["k"] in ("cp", "mv"):
                     pv = self.value_atom(st, a1)
                     if pv is not None and re.match(r"^&(str|\[)", (at[1] if len(at) > 1 else "")):
@@ -841,6 +878,11 @@ class Analysis:
                 if pl is not None:
                     newfacts.append(payload.add(pl).sub(ln))
                 newfacts.append(payload.sub(ln))
+        elif GET_CALL.search(name) and len(args) == 2 and INT.match((at[1] if len(at) > 1 else "")):
+            ln = self.len_of(st, self.value_atom(st, args[0]))
+            i_ = self.operand(st, args[1], bb, "t")
+            if ln is not None and i_ is not None:
+                self._get_post = (1, i_.addc(1).sub(ln))
         elif SPLIT_AT.search(name) and len(args) == 2:
             ln = self.len_of(st, self.value_atom(st, args[0]))
             m = self.operand(st, args[1], bb, "t")
@@ -924,8 +966,11 @@ class Analysis:
                     break
                 inst = inst.add(sub, v)
             self.sink(st, bb, "precondition", "precondition of %s: %r <= 0" % (name.split("::")[-1], H), [inst if okh else None], idx_l, loc)
-        postv = None
-        if cid in self.posts:
+        postv = getattr(self, "_get_post", None)
+        self._get_post = None
+        if postv is not None:
+            pass
+        elif cid in self.posts:
             inst_all = []
             for F in self.posts[cid]:
                 inst = Lin(F.c)
@@ -942,11 +987,27 @@ class Analysis:
                 if inst is not None:
                     inst_all.append(inst)
             if inst_all:
-                postv = tuple(inst_all)
+                postv = (0,) + tuple(inst_all)
         elif re.search(r"\bTry>?::branch$", orig or name) and a0 is not None and a0["k"] in ("cp", "mv") and len(a0["p"]) == 1:
             postv = st.post.get(a0["p"][0])
             if payload is None:
                 payload = st.env.get((a0["p"][0], "payload"))
+        if payload is None and re.search(r"\bOption::<T>::map$|\bResult::<T, E>::map$", name) and len(args) == 2 and a0["k"] in ("cp", "mv") and len(a0["p"]) == 1 \
+                and args[1]["k"] in ("cp", "mv") and len(args[1]["p"]) == 1 and args[1]["p"][0] in st.clos:
+            body_id, caps = st.clos[args[1]["p"][0]]
+            S = self.summaries.get(body_id)
+            x = st.env.get((a0["p"][0], "payload"))
+            if S is not None and x is not None:
+                inst = Lin(S.c)
+                for a_, v_ in S.t.items():
+                    sub = x if a_ == ("arg", 2) else (caps[a_[1]] if a_[0] == "up" and a_[1] < len(caps) else None)
+                    if sub is None:
+                        inst = None
+                        break
+                    inst = inst.add(sub, v_)
+                payload = inst
+        if payload is None and a0 is not None and a0["k"] in ("cp", "mv") and len(a0["p"]) == 1 and PAYLOAD_KEEP.search(name):
+            payload = st.env.get((a0["p"][0], "payload"))      # Option/Result adaptors that keep the success value
         if payload is None and d is not None and val is None:
             m_ = re.match(r"^core::(result::Result|option::Option)<(u8|u16|u32|u64|usize|i8|i16|i32|i64|isize)\b", self.ty(d))
             if m_:
@@ -1100,9 +1161,11 @@ class Analysis:
                 cv = st.cmp.get(dl) if dl is not None else None
                 vals = [(int(v), tg) for v, tg in t["v"]]
                 pf = st.post.get(st.disc.get(dl)) if dl is not None and dl in st.disc else None
+                pv = pf[0] if pf else None
+                pf = pf[1:] if pf else None
                 for v, tg in vals:
                     s2 = st.copy()
-                    if pf and v == 0:
+                    if pf and v == pv:
                         s2.facts = s2.facts | set(pf)
                     if cv is not None:
                         s2.facts = s2.facts | set(self.fact_of(cv, v != 0))
@@ -1111,7 +1174,7 @@ class Analysis:
                     outs[tg] = join([outs[tg], s2], tg, self.phi_src, self.prove) if tg in outs else s2
                 if t.get("o") is not None:
                     s2 = st.copy()
-                    if pf and vals and all(v != 0 for v, _ in vals):
+                    if pf and vals and all(v != pv for v, _ in vals) and len(vals) == 1:
                         s2.facts = s2.facts | set(pf)
                     if cv is not None and len(vals) == 1:
                         s2.facts = s2.facts | set(self.fact_of(cv, vals[0][0] == 0))
@@ -1154,7 +1217,7 @@ class Analysis:
             vals = {s.env.get(0) for s in rets}
             if len(vals) == 1:
                 v = next(iter(vals))
-                if v is not None and all(a[0] == "arg" for a in v.atoms()):
+                if v is not None and all(a[0] == "arg" or (a[0] == "up" and b.root) for a in v.atoms()):
                     self.ret = v
         for s in self.sinks:
             # what the operation depends on: the index AND the length it is compared with (`output[pos]` into vec![0; header.output_size])
@@ -1233,7 +1296,7 @@ def analyse_closure(prog, cl, rounds=4, krate_prefix="cascette_"):
                 continue
             a0 = Analysis(b, requires=requires, summaries=summaries, posts=posts)
             results[bid] = a0
-            if a0.ret is not None and not b.root and summaries.get(bid) != a0.ret:
+            if a0.ret is not None and summaries.get(bid) != a0.ret:
                 summaries[bid] = a0.ret
                 changed.add(bid)
             if a0.post_facts and not b.root and posts["facts"].get(bid) != a0.post_facts:
@@ -1286,6 +1349,10 @@ def analyse_closure(prog, cl, rounds=4, krate_prefix="cascette_"):
         for c_ in changed:
             dirty |= callers_of.get(c_, set())
             dirty.add(c_)
+            par = prog.bodies[c_].parent if c_ in prog.bodies else None
+            while par and par in cl:
+                dirty.add(par)       # a closure's summary is used where the closure is created and handed to an adaptor
+                par = prog.bodies[par].parent
     for bid, reqs in requires.items():
         for (s_id, cc) in indirect_edges.get(bid, []):
             if s_id in results:
